@@ -2,6 +2,7 @@ package main
 
 import (
 	"encoding/json"
+	"fmt"
 	"math/rand"
 	"sort"
 	"strings"
@@ -9,6 +10,7 @@ import (
 	cedar "github.com/cedar-policy/cedar-go"
 	"github.com/cedar-policy/cedar-go/types"
 	xeval "github.com/cedar-policy/cedar-go/x/exp/eval"
+	"github.com/cedar-policy/cedar-go/x/exp/schema"
 )
 
 func init() {
@@ -226,6 +228,87 @@ func runDetermBatch(payload []*Sx) *Sx {
 			first = s
 		} else if s != first {
 			return differs("batch", first, s)
+		}
+	}
+	return L(A("same"))
+}
+
+func init() { kinds["determ-schema"] = runDetermSchema }
+
+// determ-schema: <xschema> : encoding a schema (text, JSON) gives the same bytes on every repetition, in whatever order the two encoders
+// are called, for every freshly built copy, and never changes the schema; decoding the same bytes and re-encoding gives the same bytes
+func runDetermSchema(payload []*Sx) *Sx {
+	build := func() *schema.Schema { return schema.NewSchemaFromAST(xschemaFromSx(payload[0])) }
+	enc := func(f func() ([]byte, error)) string {
+		b, err := f()
+		if err != nil {
+			return "error"
+		}
+		return "ok:" + string(b)
+	}
+	s := build()
+	a0 := xschemaToSx(s.AST()).String()
+	t0 := enc(s.MarshalCedar)
+	j0 := enc(s.MarshalJSON)
+	for i := 0; i < 12; i++ {
+		if t := enc(s.MarshalCedar); t != t0 {
+			return differs("schema text on repetition (after a JSON encoding)", t0, t)
+		}
+		if j := enc(s.MarshalJSON); j != j0 {
+			return differs("schema JSON on repetition", j0, j)
+		}
+		if a := xschemaToSx(s.AST()).String(); a != a0 {
+			return differs("the schema itself after encoding it", a0, a)
+		}
+		f := build()
+		if i%2 == 0 {
+			// the other call order
+			if j := enc(f.MarshalJSON); j != j0 {
+				return differs("schema JSON of a fresh copy", j0, j)
+			}
+		}
+		if t := enc(f.MarshalCedar); t != t0 {
+			return differs("schema text of a fresh copy", t0, t)
+		}
+		if j := enc(f.MarshalJSON); j != j0 {
+			return differs("schema JSON of a fresh copy", j0, j)
+		}
+	}
+	// decode the same bytes, re-encode
+	for which, doc := range []string{j0, t0} {
+		if !strings.HasPrefix(doc, "ok:") {
+			continue
+		}
+		dec := func() *schema.Schema {
+			var d schema.Schema
+			var err error
+			if which == 0 {
+				err = d.UnmarshalJSON([]byte(doc[3:]))
+			} else {
+				err = d.UnmarshalCedar([]byte(doc[3:]))
+			}
+			if err != nil {
+				return nil
+			}
+			return &d
+		}
+		d1, d2 := dec(), dec()
+		if (d1 == nil) != (d2 == nil) {
+			return differs("decoding the same schema bytes twice", fmt.Sprint(d1 == nil), fmt.Sprint(d2 == nil))
+		}
+		if d1 == nil {
+			continue
+		}
+		t1 := enc(d1.MarshalCedar)
+		j1 := enc(d1.MarshalJSON)
+		t1b := enc(d1.MarshalCedar)
+		j2 := enc(d2.MarshalJSON)
+		t2 := enc(d2.MarshalCedar)
+		if t1 != t1b || t1 != t2 {
+			return differs("re-encoded schema text of the same decoded bytes", t1, t1b+" / "+t2)
+		}
+		if j1 != j2 {
+			return differs("re-encoded schema JSON of the same decoded bytes", j1, j2)
 		}
 	}
 	return L(A("same"))
